@@ -407,7 +407,7 @@ func c09CopyEdit(r *rand.Rand, start map[string]any, o genOpts) Case {
 func init() {
 	register(&Prop{
 		ID:   "C09",
-		Rule: "sequences of 1-12 JSON Patch operations (add, remove, replace, move, copy, test; value/from occasionally missing) on one generated document; pointers aimed at existing locations, sibling keys, index +-1/len/len+1, non-numeric / negative / non-canonical tokens on lists, scalar parents, moves into own descendants and onto themselves (incl. list items of every kind moved or copied beneath themselves, whose right-hand neighbour would slide into their place), all-digit tokens beyond the machine word; after EVERY step: status and whole document vs an RFC 6902 reference interpreter over plain values (Go) and vs the Coq model of patch.Do and the Coq RFC interpreter; a failing step must leave the document as it was; copy-edit sequences (copy a composite, edit inside the copy, test the source). Non-trivial: a failing step after a succeeding one. Distinct by Gallina term.",
+		Rule: "sequences of 1-12 JSON Patch operations (add, remove, replace, move, copy, test; value/from occasionally missing) on one generated document; pointers aimed at existing locations, sibling keys, index +-1/len/len+1, non-numeric / negative / non-canonical tokens on lists, scalar parents, moves into own descendants and onto themselves (incl. list items of every kind moved or copied beneath themselves, whose right-hand neighbour would slide into their place), all-digit tokens beyond the machine word, moves under a sibling whose name starts with the source's name; after EVERY step: status and whole document vs an RFC 6902 reference interpreter over plain values (Go) and vs the Coq model of patch.Do and the Coq RFC interpreter; a failing step must leave the document as it was; copy-edit sequences (copy a composite, edit inside the copy, test the source). Non-trivial: a failing step after a succeeding one. Distinct by Gallina term.",
 		Corpus: func() []Case {
 			d := map[string]any{"a": []any{1, 2}, "s": "x", "c": map[string]any{"k": []any{map[string]any{"v": 1}, 2}}}
 			v := func(x any) rop { return rop{Val: x, HasVal: true} }
@@ -431,6 +431,17 @@ func init() {
 			start := genDoc(r, o)
 			if idx%6 == 5 {
 				return c09CopyEdit(r, start, o)
+			}
+			if idx%12 == 10 {
+				// move/copy to a location under a SIBLING whose name merely starts with the source's name
+				// (pointers are token sequences: "/cfg/web" is not a prefix of "/cfg/web-archive/old")
+				src := []string{"web", "hosts1", "a", "0"}[r.Intn(4)]
+				sib := src + []string{"-archive", "0", "b", "~x", "/y"}[r.Intn(5)]
+				start = map[string]any{"cfg": map[string]any{src: genVal(r, o, 2, false), sib: map[string]any{"keep": 1}}, "s": "x"}
+				ops := []rop{{Op: []string{"move", "copy"}[r.Intn(2)], From: []string{"cfg", src}, HasFrom: true,
+					Path: []string{"cfg", sib, "old"}}}
+				ops = append(ops, rop{Op: "test", Path: []string{"cfg", sib, "keep"}, Val: 1, HasVal: true})
+				return c09Run(r, start, ops, nil, len(ops))
 			}
 			if idx%12 == 4 {
 				// move/copy of a list item to a location beneath itself, with every kind of item
